@@ -115,7 +115,8 @@ def relayout(src, rng, style):
         if style == 'lines':
             sep = '\n'
         elif style == 'crlf':
-            sep = rng.choice(['\r\n', ' ', '\r\n\r\n', '\t', '\r\n  '])
+            # ... and the lone carriage return: white space for the parser (it also ends a `//` comment), not a line end for the line count
+            sep = rng.choice(['\r\n', ' ', '\r\n\r\n', '\t', '\r\n  ', '\r', ' // ' + rng.choice(COMMENT_TEXTS) + '\r', '\r\n'])
         elif style == 'comments':
             c = rng.choice(COMMENT_TEXTS)
             sep = rng.choice([' ', '\n', ' /* ' + blk(c) + ' */ ', ' // ' + c + '\n', '\n/* ' + blk(c) + '\n*/\n', ' '])
